@@ -10,3 +10,4 @@ INVARIANT ObjectReports
 INVARIANT HeadDecodes
 INVARIANT ChannelShape
 PROPERTY AppendOnly
+PROPERTY ChannelRefinement
